@@ -88,7 +88,7 @@ fn pool() -> &'static Pool {
     static P: OnceLock<Pool> = OnceLock::new();
     P.get_or_init(|| {
         let mut all: Vec<&'static str> = vec![""];
-        let mut sect = |xs: &[&'static str], all: &mut Vec<&'static str>| {
+        let sect = |xs: &[&'static str], all: &mut Vec<&'static str>| {
             let lo = all.len() as u16;
             all.extend_from_slice(xs);
             (lo, all.len() as u16)
@@ -127,6 +127,7 @@ pub fn s(id: StrId) -> &'static str {
     p.all[id as usize % p.all.len()]
 }
 
+#[allow(dead_code)]
 pub fn pool_len() -> usize {
     pool().all.len()
 }
